@@ -121,6 +121,7 @@ def run(ctx):
         _replay_cfg(ctx, "MC_DataImpl_C18EmitL3", limit=3000, record=500)
         _replay_cfg(ctx, "MC_DataImpl_C18EmitMix", limit=4000, record=500)
         _replay_cfg(ctx, "MC_DataImpl_C18EmitSingle", limit=3000, record=300)      # every input dimension aligned with the verified ones
+        _replay_cfg(ctx, "MC_DataImpl_C18EmitAxes", limit=3000, record=300)        # slices of several derived dimensions with the same slice number
         _replay_cfg(ctx, "MC_DataImpl_C18EmitExtra", limit=3000)      # other fields as cache keys (two quantile levels that agree to two decimals)
         # ensemble members as fields; before every request a quantile that has to be derived from the members is asked for as well
         _replay_cfg(ctx, "MC_DataImpl_C18EmitEns", limit=1500, perturb="quantile-from-ensemble")
@@ -137,6 +138,7 @@ def run(ctx):
         _replay_cfg(ctx, "MC_DataImpl_C18EmitL3", record=4000)
         _replay_cfg(ctx, "MC_DataImpl_C18EmitMix", record=4000)
         _replay_cfg(ctx, "MC_DataImpl_C18EmitSingle", record=2000)
+        _replay_cfg(ctx, "MC_DataImpl_C18EmitAxes", record=2000)
         _replay_cfg(ctx, "MC_DataImpl_C18EmitExtra")
         _replay_cfg(ctx, "MC_DataImpl_C18EmitEns", perturb="quantile-from-ensemble")
         _random_sequences(ctx, "C18Mix", 32, 60, 12)
